@@ -27,7 +27,7 @@ ASSUMPTIONS = [
 ]
 BOUNDS = {
     'quick': {'A': 'n<=3 complete', 'G12Y013 (gaps 1-2, y in 0,1,3)': 'n=4,5 complete', 'tie thresholds/chain': 3, 'Y013': 'n=6 (2 metrics)'},
-    'thorough': {'A': 'n<=4 complete', 'A12': 'n=5,6 complete', 'B,C': 'n=5', 'Y013': 'n=7'},
+    'thorough': {'A': 'n<=4 complete', 'A12': 'n=5 complete', 'G12Y013': 'n=6 complete', 'B': 'n=5', 'Y013': 'n=7 (2 metrics)', 'tie thresholds/chain': 4},
 }
 TECHNIQUE = 'bounded-exhaustive differential exploration: grdp / mp_grdp / min_point_rdp versus the rdp_fixed chain and fresh-cache global costs, with exact-tie thresholds'
 LEVEL_TEXT = ('Model checking: every curve of the alphabets up to the bound x 5 metrics x 2 distances x 3 orders x thresholds (incl. ties) x min_points; '
@@ -44,7 +44,7 @@ def units(tier, seed):
     if tier == 'quick':
         plan = [('A', 3, 4), ('G12Y013', 4, 8), ('G12Y013', 5, 128), ('Y013', 6, 16)]
     else:
-        plan = [('A', 3, 4), ('A', 4, 64), ('A12', 5, 64), ('A12', 6, 640), ('B', 5, 64), ('C', 5, 64), ('Y013', 7, 64)]
+        plan = [('A', 3, 4), ('A', 4, 128), ('A12', 5, 256), ('G12Y013', 6, 512), ('B', 5, 256), ('Y013', 7, 64)]
     b = curves.bonus(seed, curves.A12)
     plan.append((b.name, 4, 8))
     return [('curves', prof, n, k, K, 3 if tier == 'quick' else 4) for prof, n, K in plan for k in range(K)]
